@@ -115,13 +115,16 @@ def history(job):
         # known finding log_near_pi: a plate pose (or the relative pose) within 1e-3 of a half turn loses up to
         # 5e-16/(pi-angle)^2 in the logarithm the library's frame arithmetic goes through (> 1e-9 inside 7e-4)
         nearpi = any(rf.rot_angle(M[:3, :3]) > PI - 1e-3 for M in (B, T, relx))
+        # known finding exp_cutoff: the same frame arithmetic drops a relative plate rotation below the library's 1e-6 'near
+        # zero' cut-off (a home-like pose reached by a corrective action is typically within 1e-6 rad of level)
+        cutoff = 0 < rf.rot_angle(relx[:3, :3]) < 2e-6
         pure = 1
         if kind == "query":
             pure = 1 if (float(np.abs(B - before[0]).max()) <= 1e-9 and float(np.abs(T - before[1]).max()) <= 1e-9) else 0
         ev.append({"name": name, "kind": kind, "raised": 1 if raised else 0, "verdict": verdict,
                    "coh": [1 if coh_j else 0, 1 if coh_l else 0, 1 if coh_r else 0],
                    "con": [1 if legs else 0, 1 if trans else 0, 1 if angles else 0, 1 if tilt else 0], "sw": sw, "pure": pure,
-                   "nearpi": 1 if nearpi else 0, "calls": [dict(c) for c in rec.calls]})
+                   "nearpi": 1 if nearpi else 0, "cutoff": 1 if cutoff else 0, "calls": [dict(c) for c in rec.calls]})
 
     ops = ["IK-in", "IK-out", "IK-out", "FK-in", "FK-out", "FK-out", "FK-reverse", "move", "spinCustom", "validate",
            "inverseJacobian", "staticForces", "carryMassCalc", "randomPos", "IK-protect"]
@@ -184,7 +187,7 @@ def history(job):
 
 
 def strip(t):
-    return {"id": t["id"], "ev": [{k: v for k, v in e.items() if k not in ("msg", "nearpi")} for e in t["ev"]]}
+    return {"id": t["id"], "ev": [{k: v for k, v in e.items() if k not in ("msg", "nearpi", "cutoff")} for e in t["ev"]]}
 
 
 def clause_of(e):
@@ -212,17 +215,25 @@ def probe_job(_):
         sp.IK(top_plate_pos=tm(T.copy()), protect=True)
         rel = sp.getCurrentLocalTransform().gTM()
         want = rf.trans_inv(sp.getBottomT().gTM()) @ sp.getTopT().gTM()
-    return float(np.abs(rel - want).max()), rel.tolist(), want.tolist()
+    dev = float(np.abs(rel - want).max())
+    with quiet():       # exp_cutoff: a top plate turned 5e-7 rad against the bottom plate
+        h = float(sp.getTopT().gTM()[2, 3])
+        sp.IK(top_plate_pos=tm(rf.taa_to_tm([0.0, 0.0, h] + list(ax * 5e-7))), bottom_plate_pos=tm(np.eye(4)), protect=True)
+        rel2 = sp.getCurrentLocalTransform().gTM()
+        want2 = rf.trans_inv(sp.getBottomT().gTM()) @ sp.getTopT().gTM()
+    return dev, rel.tolist(), want.tolist(), float(np.abs(rel2 - want2).max()), rel2.tolist(), want2.tolist()
 
 
 def known_probe(ctx):
     """Deterministic reproduction of log_near_pi on a platform: a top-plate pose whose rotation is pi - 3e-4 (protected
     IK, so nothing is corrected); the relative transform the platform reports differs from inv(bottom)*top by > 1e-9.
     Runs in a forked child: the platform kernels are numba-parallel and must not run in the parent before pmap forks."""
-    dev, rel, want = pmap(probe_job, [0, 1], timeout=600)[0]      # two items: pmap runs a single one inline
-    ctx.cov["known_finding_probe_deviation"] = {"log_near_pi": dev}
+    dev, rel, want, dev2, rel2, want2 = pmap(probe_job, [0, 1], timeout=600)[0]      # two items: pmap runs a single one inline
+    ctx.cov["known_finding_probe_deviation"] = {"log_near_pi": dev, "exp_cutoff": dev2}
     if dev > 1e-9 and "log_near_pi" in ctx.known:
         ctx.violation("incoherent:relative", {"probe": "log_near_pi"}, expected=want, observed=rel, tags=["log_near_pi"])
+    if dev2 > 1e-9 and "exp_cutoff" in ctx.known:
+        ctx.violation("incoherent:relative", {"probe": "exp_cutoff"}, expected=want2, observed=rel2, tags=["exp_cutoff"])
 
 
 def run(ctx):
@@ -260,7 +271,9 @@ def run(ctx):
         e = t["ev"][k] if k < len(t["ev"]) else None
         c = clause_of(e)
         tags = ["log_near_pi"] if (c.startswith("incoherent") and any(x.get("nearpi") for x in t["ev"][:k + 1])) else []
-        if tags and "log_near_pi" in ctx.known:
+        if c == "incoherent:relative" and e and e.get("cutoff"):
+            tags.append("exp_cutoff")
+        if tags and any(tg in ctx.known for tg in tags):
             ctx.violation(c, {"seed": t["seed"]}, tags=tags)        # prints the KNOWN-FINDING line once, counts nothing
             continue
         summary[(c, e["name"] if e else "?")] = summary.get((c, e["name"] if e else "?"), 0) + 1
@@ -304,7 +317,8 @@ def replay(ctx, rep):
     for i, e in enumerate(t["ev"]):
         cl = clause_of(e)
         print(i, e["name"], e["verdict"], "coh", e["coh"], "con", e["con"], "nearpi", e["nearpi"], "" if cl == "protocol_shape" else "<-- " + cl)
-    bad = [e for e in t["ev"] if clause_of(e) != "protocol_shape"]
+    bad = [e for e in t["ev"] if clause_of(e) != "protocol_shape" and not (clause_of(e) == "incoherent:relative" and e.get("cutoff"))
+           and not (clause_of(e).startswith("incoherent") and e.get("nearpi"))]
     if bad:
         print("VIOLATION property=C10 replay=(replayed)")
         return 1
